@@ -231,6 +231,52 @@ class CellSim(object):
         decl['traits'] = decl['inst_traits'] | adecl['traits']
         self.stats_count('moved_alloc')
 
+    def op_xmove(self, idx, alloc_i):
+        """Like move, aimed at an instance sitting on a server that is not
+        up (frozen, or down within the retention time)."""
+        servers = self.servers()
+        cands = [n for n in self.app_order
+                 if self.cell.apps[n].server in servers and
+                 servers[self.cell.apps[n].server].state is not
+                 scheduler.State.up]
+        if not cands:
+            return self.op_move(idx, alloc_i)
+        pos = self.app_order.index(cands[idx % len(cands)])
+        return self.op_move(pos, alloc_i)
+
+    def op_lfreeze(self, idx, app_idxs):
+        """Like freeze, aimed at an up server that hosts instances."""
+        servers = self.servers()
+        loaded = sorted(n for n, srv in servers.items()
+                        if srv.apps and srv.state is scheduler.State.up)
+        if not loaded:
+            return self.op_freeze(idx, app_idxs)
+        name = loaded[idx % len(loaded)]
+        pos = sorted(servers).index(name)
+        return self.op_freeze(pos, app_idxs)
+
+    def op_fill(self, aff_i, pieces):
+        """Capacity pressure: for every up server, low-priority instances
+        whose demands add up to the room that is free there (by declared
+        values) are submitted to the default allocation of its partition."""
+        servers = self.servers()
+        for sname in sorted(servers):
+            server = servers[sname]
+            sdecl = self.decl_servers.get(sname)
+            if sdecl is None or server.state is not scheduler.State.up:
+                continue
+            room = list(sdecl['cap'])
+            for other in server.apps:
+                for dim in range(3):
+                    room[dim] -= self.decl_apps[other]['demand'][dim]
+            demand = [max(0, int(r)) // pieces for r in room]
+            if not any(demand):
+                continue
+            alloc_i = int(sdecl['label'][4:])
+            for _ in range(pieces):
+                self.op_app(alloc_i, aff_i, demand, 1, 0, None, None, 0,
+                            False)
+
     def op_srv(self, rack_idx, spec):
         self.add_server(rack_idx, spec)
 
